@@ -513,4 +513,28 @@ example :
     ((load dirToday true (flush dirToday [] chainHeap))[2]?).map (·.lab.cls) = some "AuxTurboScanner" := by decide
 
 
+/-! ## After the repairs of F-C05-2 (`9a6f576`) and F-C05-4 (`453154d`) -/
+
+/-- **C05_persist_reload.** With `from_dao` repaired (`stale := false`) the hypothesis about alternatively mapped
+objects on cycles is gone: `to_dao` → flush → load through any DAO class of the chain → `from_dao` is isomorphic to
+the input for every finite object graph outside the two remaining triggers (F-C05-1 self-hierarchy references,
+F-C05-3 duplicates in a collection), each only needed while its quirk is on. -/
+theorem C05_persist_reload (q : StoreQuirks) (hq : q.stale = false) (order : List Nat)
+    (unmap : Label → Option Label) (via : Nat) (h : Heap) (roots rs' : List Nat) (h' : Heap) (db : DB)
+    (hrt : RoundTrips unmap h)
+    (hno : ∀ droots st, toDao h roots = some (droots, st) → NoO2M q.dir st.out)
+    (hdup : q.dedup = true → ∀ droots st, toDao h roots = some (droots, st) → NoDup st.out)
+    (hrun : persistReload q order unmap via h roots = some (rs', h', db)) : Iso h roots h' rs' :=
+  C05_persist_reload_partial q order unmap via h roots rs' h' db hrt hno hdup
+    (fun hs => by rw [hq] at hs; cases hs) hrun
+
+/-- **C05_canon.** What the driver prints (graph part) under the same conditions. -/
+theorem C05_canon (q : StoreQuirks) (hq : q.stale = false) (order : List Nat)
+    (unmap : Label → Option Label) (via : Nat) (h : Heap) (roots rs' : List Nat) (h' : Heap) (db : DB)
+    (hrt : RoundTrips unmap h)
+    (hno : ∀ droots st, toDao h roots = some (droots, st) → NoO2M q.dir st.out)
+    (hdup : q.dedup = true → ∀ droots st, toDao h roots = some (droots, st) → NoDup st.out)
+    (hrun : persistReload q order unmap via h roots = some (rs', h', db)) : canon h' rs' = canon h roots :=
+  (Iso_canon_eq (C05_persist_reload q hq order unmap via h roots rs' h' db hrt hno hdup hrun)).symm
+
 end KrroodVerif.Dao
